@@ -147,6 +147,10 @@ class Scan(ast.NodeVisitor):
     def visit_AugAssign(self, node):
         if isinstance(node.target, (ast.Attribute, ast.Subscript)):
             self.mut_sites.append((self.path, self.fn(), src(node.target), self.classify(node.target.value), 'augassign'))
+        elif isinstance(node.target, ast.Name) and (isinstance(node.op, (ast.BitOr, ast.BitAnd, ast.BitXor))
+                                                    or (isinstance(node.op, ast.Add) and isinstance(node.value, (ast.List, ast.ListComp)))):
+            # `s |= {...}` / `l += [...]` update a set / list IN PLACE when the name is bound to a mutable object that came from elsewhere
+            self.mut_sites.append((self.path, self.fn(), src(node.target) + ' ' + type(node.op).__name__ + '=', self.classify(node.target), 'augassign-name'))
         self.generic_visit(node)
     def visit_Delete(self, node):
         for t in node.targets:
